@@ -219,6 +219,49 @@ def decorate_fields(rng, mol):
     return mol
 
 
+# molecules whose stereo elements DEPEND on each other (a centre is chiral only once others are labelled): meso polyols,
+# inositols, 1,3-/1,4-disubstituted rings, stereo double bond + centre, allene + centre
+DEPENDENT_STEREO = [
+    'C[C@H](O)[C@H](O)[C@H](O)C', 'C[C@H](O)[C@@H](O)[C@H](O)C', 'C[C@@H](O)[C@H](O)[C@H](O)C', 'C[C@H](O)[C@H](O)[C@@H](O)C',
+    'C[C@@H](O)[C@@H](O)[C@H](O)C', 'OC(=O)[C@H](O)[C@@H](O)[C@H](O)C(O)=O', 'OC(=O)[C@@H](O)[C@@H](O)[C@H](O)C(O)=O',
+    'O[C@H]([C@@H](O)C(O)=O)C(O)=O', 'O[C@H]([C@H](O)C(O)=O)C(O)=O',
+    'O[C@H]1[C@H](O)[C@@H](O)[C@H](O)[C@@H](O)[C@@H]1O', 'O[C@@H]1[C@@H](O)[C@H](O)[C@@H](O)[C@H](O)[C@H]1O',
+    'O[C@H]1[C@@H](O)[C@H](O)[C@@H](O)[C@H](O)[C@@H]1O',
+    'C[C@H]1CC[C@@H](C)CC1', 'C[C@H]1CC[C@H](C)CC1', 'O[C@H]1CC[C@@H](O)CC1', 'C[C@H]1C[C@@H](C)C1', 'C[C@H]1C[C@H](C)C1',
+    'C[C@H]1CC[C@@H](O)CC1', 'C[C@@H]1C[C@H](O)C[C@H](C)C1', 'C[C@H]1C[C@@H](C)C[C@@H](C)C1',
+    'C/C=C/[C@H](O)/C=C\\C', 'C/C=C/[C@@H](O)/C=C\\C', 'C/C=C/[C@H](O)C', 'C/C=C\\[C@H](C)O',
+    'CC=[C@]=C[C@H](O)C', 'C[C@H](O)C=[C@@]=C[C@H](C)O',
+    'C[C@H](N)[C@H](C)[C@H](N)C', 'C[C@H](Cl)[C@@H](Br)[C@H](Cl)C', 'F[C@H](Cl)[C@H](O)[C@@H](F)Cl',
+]
+
+# records mixing a +-4 atom with other charged atoms, isotopes of both small and large mass difference, radicals + charges
+FIELD_MIX = [
+    '[Ti+4].[Cl-].[Cl-].[Cl-].[Cl-]', '[Zr+4].[O-2].[O-2]', '[Th+4].[F-].[F-].[F-].[F-]', '[C-4].[Na+].[Na+].[Na+].[Na+]',
+    '[Sn+4].[O-2].[O-2]', '[Si-4].[K+].[K+].[K+].[K+]', '[Pb+4].[CH3-].[CH3-].[CH3-].[CH3-]', '[Fe+3].[Cl-].[Cl-].[Cl-]',
+    '[N-3].[Li+].[Li+].[Li+]', '[Ti+4].[13CH3-].[Cl-].[Cl-].[Cl-]', '[U+4].[235U+4].[O-2].[O-2].[O-2].[O-2]',
+    '[13CH4].[14CH4].[11CH4].[12CH4]', '[2H]O[2H].[3H]O[3H].[1H]O[1H]', '[18OH2].[15OH2].[17OH2]', '[Ce+4].[O-][N+](=O)[O-]',
+    '[CH3].[CH3-].[CH3+]', 'C[CH2].[Na+].[Cl-]', '[O-][N+](=O)c1ccccc1[O]', '[Ti+4].[CH2-][CH2].[Cl-].[Cl-].[Cl-]', '[NH4+].[13C-]#[15N]',
+    '[Hf+4].[2H-].[2H-].[H-].[H-]', '[Pt+4].[Cl-].[Cl-].[Cl-].[Cl-].[Cl-].[Cl-].[K+].[K+]',
+]
+
+
+def special_molecules(rng):
+    """(tag, molecule) for the deterministic part of the write->read oracle: laid out with the library's clean2d, coordinates
+    snapped to 1/10000, cis/trans labels taken from the drawing, stereo labels that are not valid for it dropped (fix_stereo)"""
+    out = []
+    for smi in DEPENDENT_STEREO + FIELD_MIX:
+        m = molgen.parse(smi)
+        if m is None:
+            continue
+        layout(rng, m)
+        try:
+            m.fix_stereo()
+        except Exception:
+            pass
+        out.append((smi, m))
+    return out
+
+
 def molecules(ctx, k_corpus):
     """(tag, molecule) with layout and exact coordinates"""
     rng = ctx.rng
@@ -648,6 +691,7 @@ def stream_writer(ctx, mols):
         bw.add(f'sdfwrite {int(mapping)} ' + ' '.join(map(str, wmol_ints(m) + meta_ints(m.meta))), real,
                (tag, 'sdfwrite'), key=(tag, real))
         ctx.dist('W:atoms<=%d' % (10 * (len(m) // 10 + 1)))
+        _state.setdefault('case_mols', {})[tag] = m
         if real.startswith('ok'):
             text = real_sdf_text(m, mapping)
             texts.append((tag, m, text))
@@ -1077,7 +1121,8 @@ def write_text(fmt, objs):
 def read_text(fmt, text, **kw):
     _, Rd = io_classes(fmt)
     f = io.BytesIO(text.encode()) if fmt == 'MRVWrite' else io.StringIO(text)
-    return list(Rd(f, calc_cis_trans=True, **kw))
+    kw.setdefault('calc_cis_trans', True)
+    return list(Rd(f, **kw))
 
 
 def in_meta_domain(md, fmt):
@@ -1170,18 +1215,23 @@ def roundtrip_check(fmt, objs):
 
 
 def check_text(inp):
+    """read the text back twice — with the reader's default options (cis/trans is then not derived, everything else must be
+    preserved) and with calc_cis_trans=True (everything incl. cis/trans) — and compare with the expected records"""
     fmt, text, exp = inp['fmt'], inp['text'], inp['expect']
-    try:
-        back = read_text(fmt, text)
-    except Exception as e:
-        return (f'C11/roundtrip/{fmt}/read-crash/{type(e).__name__}', f'reading back raised {e!r}', inp)
-    if len(back) != len(exp):
-        return (f'C11/roundtrip/{fmt}/record-lost', f'{len(back)} records read back, {len(exp)} written', inp)
-    for i, (e, b) in enumerate(zip(exp, back)):
-        d = diff_records(e, _jsonish(obj_record(b)))
-        if d:
-            return (f'C11/roundtrip/{fmt}/' + '+'.join(x.split('.')[-1] for x in d)[:80],
-                    f'record {i}: fields changed after write->read: {d}', inp)
+    for mode, kw in (('default-options', {'calc_cis_trans': False}), ('calc_cis_trans', {'calc_cis_trans': True})):
+        try:
+            back = read_text(fmt, text, **kw)
+        except Exception as e:
+            return (f'C11/roundtrip/{fmt}/read-crash/{type(e).__name__}', f'reading back ({mode}) raised {e!r}', inp)
+        if len(back) != len(exp):
+            return (f'C11/roundtrip/{fmt}/record-lost', f'{len(back)} records read back ({mode}), {len(exp)} written', inp)
+        for i, (e, b) in enumerate(zip(exp, back)):
+            d = diff_records(e, _jsonish(obj_record(b)))
+            if mode == 'default-options':
+                d = [x for x in d if not x.endswith('cis_trans')]
+            if d:
+                return (f'C11/roundtrip/{fmt}/' + '+'.join(x.split('.')[-1] for x in d)[:80],
+                        f'record {i}: fields changed after write->read ({mode}): {d}', inp)
     return None
 
 
@@ -1295,6 +1345,19 @@ def stream_roundtrip(ctx, mols, n):
     ctx.dist('RT:molecules-in-domain', len(mols))
     if not mols:
         return
+    special = [(t, m) for t, m in special_molecules(rng) if in_stereo_domain(m)]
+    _state['special'] = special
+    ctx.dist('RT:special-molecules', len(special))
+    ctx.dist('RT:special-labelled-centres', sum(len(stereo_record(m)[0]) for _, m in special))
+    for fmt in WRITERS:
+        for tag, m in special:
+            o = m.copy()
+            o.meta.clear()
+            ctx.count(('RT-special', fmt, tag))
+            ctx.dist('RT:special:' + fmt)
+            r = roundtrip_check(fmt, [o])
+            if r:
+                ctx.fail(*r)
     for fmt in WRITERS:
         for _ in range(n):
             objs = make_objects(rng, mols, fmt, rng.choice([1, 1, 2, 3]))
@@ -1340,18 +1403,18 @@ def correspond(ctx):
     ctx.cov['programs'] = 20  # MOLWrite/EMOLWrite._write_molecule, SDFWrite/ESDFWrite/RDFWrite/ERDFWrite.write, parse_mol_v2000/v3000,
     # emol.split, parse_rxn_v2000/v3000, postprocess_parsed_molecule, SDFRead/RDFRead._read_block/read_metadata/read_structure,
     # MDLRead.__iter__/__getitem__, reset_index x2, MRVWrite/MRVRead (oracle only)
-    mols = molecules(ctx, 60 if ctx.quick else 600)
+    mols = molecules(ctx, 60 if ctx.quick else 1500)
     ctx.dist('molecules', len(mols))
     stream_prim(ctx)
     texts = stream_writer(ctx, mols)
     if texts:
-        stream_parse_corrupt(ctx, texts, 400 if ctx.quick else 6000)
-        stream_parse_corrupt_v3(ctx, 300 if ctx.quick else 5000)
-        stream_framing(ctx, texts, 40 if ctx.quick else 500)
-        stream_rdf(ctx, texts, 40 if ctx.quick else 500)
+        stream_parse_corrupt(ctx, texts, 400 if ctx.quick else 15000)
+        stream_parse_corrupt_v3(ctx, 300 if ctx.quick else 12000)
+        stream_framing(ctx, texts, 40 if ctx.quick else 1000)
+        stream_rdf(ctx, texts, 40 if ctx.quick else 1000)
     stream_testfiles(ctx)
-    stream_meta(ctx, 300 if ctx.quick else 4000)
-    stream_roundtrip(ctx, mols, 25 if ctx.quick else 400)
+    stream_meta(ctx, 300 if ctx.quick else 8000)
+    stream_roundtrip(ctx, mols, 25 if ctx.quick else 600)
     # core starts the failing-input search only when no failure at all was recorded; failures that belong to known
     # findings (reported by the RT stream as well as by the standing probes) must not suppress it
     known = {f['signature'] for f in core.load_findings('C11') if f['status'] == 'known'}
@@ -1393,7 +1456,43 @@ def search(ctx):
     m.atom(2).x = -9999.9999
     m.flush_cache()
     stress.append(('wide-coordinates', m))
-    pool = stress + mols
+    # (i) the molecules of the disagreeing correspondence cases themselves, through every writer
+    seeds = []
+    for stream, case in _state.get('disagreements', []):
+        tag = case[0] if isinstance(case, tuple) and case else None
+        m = _state.get('case_mols', {}).get(tag)
+        if m is not None and len(seeds) < 40 and max(m) <= 999:
+            seeds.append((f'disagreeing:{tag}', m))
+    # (ii) their neighbourhood: the same records with field mixes that exercise every V2000/V3000 property line together
+    def mixes(m):
+        for k in range(6):
+            c = m.copy()
+            atoms = [a for _, a in c.atoms()]
+            rng.shuffle(atoms)
+            for j, a in enumerate(atoms[:4]):
+                a._charge = [rng.choice([4, -4]), rng.choice([-1, 1, 2, -2, 3, -3]), rng.choice([-1, 1]), 0][j]
+                if rng.random() < 0.4:
+                    a._isotope = rng.choice(sorted(a.isotopes_distribution))
+                if rng.random() < 0.3:
+                    a._is_radical = True
+            c.flush_cache()
+            yield c
+    special = _state.get('special') or [(t, m) for t, m in special_molecules(rng) if in_stereo_domain(m)]
+    first = seeds + [(t + ':mix', x) for t, m in seeds[:10] for x in mixes(m)] + special
+    for tag, m in first:
+        if time.time() > t_end:
+            break
+        for fmt in WRITERS:
+            o = m.copy()
+            o.meta.clear()
+            r = roundtrip_check(fmt, [o])
+            if r:
+                ctx.fail(*r)
+                break
+        if len(ctx.failures) >= 5:
+            ctx.notes.append(f'search: failing inputs found among the disagreeing cases / their field-mix neighbourhood / special records')
+            return
+    pool = stress + mols + special
     n = 0
     while time.time() < t_end and n < (400 if ctx.quick else 6000):
         n += 1
